@@ -58,11 +58,26 @@
 (*                    with JsTokens!Allowed / Effect (its bracket context, *)
 (*                    free at top level) and with the full stack ghost.    *)
 (*                                                                         *)
+(*  (e) DetSound      every report carries a flag `det`: TRUE iff the      *)
+(*                    property-level definition PRESCRIBES this token at   *)
+(*                    this position, given the tokens before it (the       *)
+(*                    clause above that speaks about it is an equality     *)
+(*                    with the declarative definition, not an implication  *)
+(*                    that holds vacuously).  DetSound: a token flagged    *)
+(*                    det IS the token that JsTokens.tla's longest match   *)
+(*                    (FirstLen, Viable, Allowed) and clause 12 written as *)
+(*                    languages on classes (Presc) yield.  det is FALSE    *)
+(*                    where the statement leaves the behaviour open or the *)
+(*                    model merely mirrors the code (see Det).             *)
+(*                                                                         *)
 (* The state graph is also the generator of the differential replay: at    *)
 (* the error report the input and the predicted reports are written out    *)
 (* (Emit) and `vdrive jstok impl` compares them with what js.Lexer does on *)
-(* concrete bytes: MODEL-DRIFT if they differ, a verdict only from the     *)
-(* property-level trace spec (JsTokensTrace.tla).                          *)
+(* concrete bytes: MODEL-DRIFT if they differ.  Where the first differing  *)
+(* report is one the model flags det, the trace is written with the        *)
+(* model's tokens as the EXPECTATION and the property-level trace spec     *)
+(* (JsTokensTrace.tla, Matches) is the judge; every other differing trace  *)
+(* is judged by the all-input invariants alone.                            *)
 (*                                                                         *)
 (* What the code does and the grammar does not say (kept in the model,     *)
 (* outside the property):                                                  *)
@@ -86,6 +101,8 @@
 (*   "gtgtgt_eq"         '>>>' does not look for a following '='           *)
 (*   "re_class_slash"    RegExp(): a '/' inside a character class ends the  *)
 (*                       literal                                           *)
+(*   "det_num_follow"    (a defect of the flag, not of the lexer) a numeric *)
+(*                       token is flagged det whatever follows it          *)
 (***************************************************************************)
 EXTENDS Integers, Sequences, FiniteSets, TLC, Json, CSV, IOUtils
 
@@ -137,7 +154,7 @@ Flat(s) == IF s = <<>> THEN <<>> ELSE Expand(Head(s)) \o Flat(Tail(s))
 ASSUME ~("kw_async" \in Alphabet /\ {"letter_x", "letter_u"} \cap Alphabet # {})
 ASSUME {KwName[k] : k \in KwAtoms} \subseteq J!KwWords
 ASSUME ReMode \in {"grammar", "always", "never"}
-ASSUME Defect \in {"none", "rbrace_any_level", "optchain_digit", "exp_no_digits", "num_ident", "gtgtgt_eq", "re_class_slash"}
+ASSUME Defect \in {"none", "rbrace_any_level", "optchain_digit", "exp_no_digits", "num_ident", "gtgtgt_eq", "re_class_slash", "det_num_follow"}
 
 VARIABLES input,        \* the input as classes
           pos,          \* parse.Input.pos (0-based; = start between calls)
@@ -152,9 +169,10 @@ VARIABLES input,        \* the input as classes
           hist,         \* the reports so far
           gEnd,         \* ghost mirroring TokenStream's `end`
           pstk, pok,    \* ghosts: JsTokens.tla's bracket context (section 3) and "every unit so far was Allowed"
-          gs, gbal, base    \* ghosts: the full bracket stack over {"T", "B"}, "no closer met a wrong opener",
+          gs, gbal, base,   \* ghosts: the full bracket stack over {"T", "B"}, "no closer met a wrong opener",
                             \* minus the number of closers that came at top level without an opener
-ivars == <<input, pos, prevLT, prevNum, level, tl, redo, prevSig, halted, out, hist, gEnd, pstk, pok, gs, gbal, base>>
+          clean             \* ghost: no token so far where clause 12 knows none (see LexErr): what follows such a place is open
+ivars == <<input, pos, prevLT, prevNum, level, tl, redo, prevSig, halted, out, hist, gEnd, pstk, pok, gs, gbal, base, clean>>
 
 T == INSTANCE TokenStream WITH fam <- "js", concat <- TRUE, end <- gEnd, seenErr <- halted, inTag <- FALSE
 
@@ -334,7 +352,8 @@ ReLoop(q, inClass) ==
 (* ---- results of a call ---- *)
 \* tt: token type; hi: cursor after the call; n: length of the data returned; err: l.err ("" = none); sub: which comment;
 \* plt / pnum / lvl / tls: prevLineTerminator, prevNumericLiteral, level, templateLevels after the call
-Tok(tt, hi) == [tt |-> tt, hi |-> hi, n |-> hi - pos, err |-> "", sub |-> "", plt |-> FALSE, pnum |-> FALSE, lvl |-> level, tls |-> tl]
+\* det: the token is prescribed (filled in by Step, see Det)
+Tok(tt, hi) == [tt |-> tt, hi |-> hi, n |-> hi - pos, err |-> "", sub |-> "", plt |-> FALSE, pnum |-> FALSE, lvl |-> level, tls |-> tl, det |-> FALSE]
 \* ErrorToken; n = 0: data nil, else the Shift()ed lexeme
 ErrTok(why, hi, n) == [Tok("Error", hi) EXCEPT !.n = n, !.err = why]
 \* the end of Next: "unexpected %s", MoveRune, ErrorToken with that rune
@@ -407,6 +426,7 @@ RegExpCall ==
 
 (* ---- the driver ---- *)
 Trivia == {"Whitespace", "LineTerminator", "Comment", "CommentLineTerminator"}
+PunctNames == {J!Join(q) : q \in J!PunctSeqs}
 Numeric == {"Decimal", "Binary", "Octal", "Hexadecimal", "Integer"}
 \* after these a '/' is a division (an operand just ended); anywhere else an expression may start
 ReWanted == CASE ReMode = "always" -> TRUE
@@ -417,7 +437,7 @@ ReWanted == CASE ReMode = "always" -> TRUE
 Init == /\ input \in {Flat(a) : a \in UNION {[1..n -> Alphabet] : n \in 0..MaxLen}}
         /\ pos = 0 /\ prevLT = TRUE /\ prevNum = FALSE /\ level = 0 /\ tl = <<>>
         /\ redo = FALSE /\ prevSig = "" /\ halted = FALSE /\ out = [tt |-> "none"] /\ hist = <<>>
-        /\ gEnd = 0 /\ pstk = <<>> /\ pok = TRUE /\ gs = <<>> /\ gbal = TRUE /\ base = 0
+        /\ gEnd = 0 /\ pstk = <<>> /\ pok = TRUE /\ gs = <<>> /\ gbal = TRUE /\ base = 0 /\ clean = TRUE
 
 (* ---- ghosts ---- *)
 \* the unit of JsTokens.tla a reported token is, as far as its bracket context cares
@@ -436,34 +456,95 @@ Ghost(tt) ==
          [] tt = "TemplateEnd" -> IF gs # <<>> /\ Top(gs) = "T" THEN [same EXCEPT !.gs = Pop(gs)] ELSE bad
          [] OTHER -> same
 
+(* ---- det: is the token of this call PRESCRIBED by the property-level definition? ---- *)
+(* TRUE only where the clause that TLC checks for the token is an equality with the declarative definition        *)
+(* (DetSound below holds it to that), per kind of token:                                                         *)
+(*   punctuators          JsTokens!FirstLen over PunctSeqs and Openers (ECMA-262 12.8, longest match) with the    *)
+(*                        '?.' look-ahead (Viable); not where an Annex B opener '<!--' / '-->' starts (outside    *)
+(*                        the property); '}' only where JsTokens!Allowed says it is a punctuator (top level, or   *)
+(*                        the innermost open bracket is a '{') and every unit before it was Allowed               *)
+(*   template pieces      12.9.6: from '`' always; from '}' only where JsTokens!Allowed says a substitution ends  *)
+(*                        (InputElementTemplateTail); only when terminated ('`' or '${'), else the model reports  *)
+(*                        an error                                                                                *)
+(*   numeric literals     12.9.3 (NumLang's languages, longest match) when the character after it is neither an   *)
+(*                        IdentifierStart (a '\' counts) nor a DecimalDigit; so not '0b1' in '0b12', not '1' in    *)
+(*                        '1_', '1__0', '1in'; legacy octal and 'invalid number' are error reports                *)
+(*   identifiers,         12.7 IdentifierName, longest match, keyword iff the spelling is one (Keywords /         *)
+(*   keywords, #names     JsTokens!KwWords); only without '\u' escapes and not directly before a '\' (the code     *)
+(*                        does not look at the escaped code point, the standard does)                             *)
+(*   strings              12.9.4: up to the first unescaped closing quote; only when terminated and every '\' is   *)
+(*                        followed by a LineTerminatorSequence or a character that is not a digit, 'x' or 'u'     *)
+(*                        (legacy octal, malformed \x / \u: open)                                                 *)
+(*   comments             12.4: '//' up to the next LineTerminator, '/*' up to the first '*/', and                *)
+(*                        CommentLineTerminator iff a LineTerminator is inside (TokenInv); not Annex B comments   *)
+(*   line terminators     12.3: exactly one LineTerminatorSequence (LF, CR, CR LF, U+2028/9) followed by none     *)
+(*   white space          12.2: exactly one WhiteSpace code point followed by none; whether a run of several is   *)
+(*                        one token is left open by the statement (JsTokens.tla, readings and R5)                 *)
+(*   regular expressions  12.9.5 (ReLang), whenever the driver calls RegExp() and it returns a token              *)
+(* and FALSE for every error report, for everything after a place where clause 12 knows no token (~clean).        *)
+LtSeqs == {<<"nl">>, <<"cr">>, <<"cr", "nl">>, <<"uls">>}
+IdLike(tt) == tt = "Identifier" \/ tt = "PrivateIdentifier" \/ tt \in J!KwWords
+NumFollowOK(hi) == B(hi) \notin IdStartA \cup Digits \cup {"uletter", "bslash"}
+\* the characters input[i..e-1] of a terminated string whose closing quote is input[e]
+RECURSIVE StrEscOK(_, _)
+StrEscOK(i, e) == IF i >= e THEN TRUE
+                  ELSE IF input[i] # "bslash" THEN StrEscOK(i + 1, e)
+                  ELSE IF input[i + 1] \in Digits \cup {"letter_x", "letter_u"} THEN FALSE
+                  ELSE IF input[i + 1] = "cr" /\ input[i + 2] = "nl" THEN StrEscOK(i + 3, e)
+                  ELSE StrEscOK(i + 2, e)
+NoBslash(lo, hi) == \A i \in (lo + 1)..hi : input[i] # "bslash"
+HtmlOpenerAt(p) == \/ B(p) = "lt" /\ B(p + 1) = "bang" /\ B(p + 2) = "dash" /\ B(p + 3) = "dash"
+                   \/ B(p) = "dash" /\ B(p + 1) = "dash" /\ B(p + 2) = "gt"
+\* clause 12 knows no token here (or the class abstraction cannot tell): this token and everything after it is open
+LexErr(r) == LET lo == r.hi - r.n IN
+    \/ r.tt \in Numeric /\ ~NumFollowOK(r.hi)
+    \/ r.tt = "String" /\ ~StrEscOK(lo + 2, r.hi)
+    \/ IdLike(r.tt) /\ ~(NoBslash(lo, r.hi) /\ B(r.hi) # "bslash")
+Det(r) ==
+    LET lo == r.hi - r.n IN
+    /\ clean /\ r.tt # "Error"
+    /\ IF redo THEN r.tt = "RegExp"
+       ELSE CASE r.tt = "Whitespace" -> r.n = 1 /\ B(r.hi) \notin {"ws", "uws"}
+              [] r.tt = "LineTerminator" -> SubSeq(input, lo + 1, r.hi) \in LtSeqs
+              [] r.tt \in {"Comment", "CommentLineTerminator"} -> r.sub # "html"
+              [] r.tt = "}" -> pok /\ J!Allowed(<<"p.}">>, pstk, Deep)
+              [] r.tt \in {"TemplateMiddle", "TemplateEnd"} -> pok /\ J!Allowed(<<"tmpl.tail">>, pstk, Deep)
+              [] r.tt \in {"Template", "TemplateStart"} -> TRUE
+              [] r.tt \in Numeric -> ~LexErr(r) \/ Defect = "det_num_follow"
+              [] r.tt = "String" \/ IdLike(r.tt) -> ~LexErr(r)
+              [] r.tt \in PunctNames \ {"}"} -> ~HtmlOpenerAt(pos)
+              [] OTHER -> FALSE
+
 (* ---- the replay case ---- *)
 CaseFile == IOEnv.VERIF_CASES
-Report(r, viaRe) == [tt |-> r.tt, n |-> r.n, hi |-> r.hi, re |-> viaRe, err |-> r.err]
+\* pre: what Next had returned ('/' or '/=') when the report is RegExp()'s
+Report(r, viaRe) == [tt |-> r.tt, n |-> r.n, hi |-> r.hi, re |-> viaRe, err |-> r.err, det |-> r.det, pre |-> IF viaRe THEN out.tt ELSE ""]
 EmitCase(h) == Emit => CSVWrite("%1$s", <<ToJson([cls |-> input, toks |-> h])>>, CaseFile)
 
 \* (\E r \in {e} : ...  makes TLC evaluate e once)
 Step ==
     /\ ~halted
-    /\ \E r \in {IF redo THEN RegExpCall ELSE NextCall} :
+    /\ \E r0 \in {IF redo THEN RegExpCall ELSE NextCall} : \E r \in {[r0 EXCEPT !.det = Det(r0)]} :
        /\ out' = r
        /\ pos' = r.hi /\ prevLT' = r.plt /\ prevNum' = r.pnum /\ level' = r.lvl /\ tl' = r.tls
        /\ UNCHANGED input
        /\ IF ~redo /\ r.tt \in {"/", "/="} /\ ReWanted
           THEN \* the driver asks for the regular expression: nothing is reported yet
                /\ redo' = TRUE
-               /\ UNCHANGED <<prevSig, halted, hist, gEnd, pstk, pok, gs, gbal, base>>
+               /\ UNCHANGED <<prevSig, halted, hist, gEnd, pstk, pok, gs, gbal, base, clean>>
           ELSE /\ redo' = FALSE
                /\ hist' = Append(hist, Report(r, redo))
                /\ IF r.tt = "Error"
                   THEN /\ halted' = TRUE
                        /\ EmitCase(hist')
-                       /\ UNCHANGED <<prevSig, gEnd, pstk, pok, gs, gbal, base>>
+                       /\ UNCHANGED <<prevSig, gEnd, pstk, pok, gs, gbal, base, clean>>
                   ELSE /\ halted' = FALSE
                        /\ prevSig' = (IF r.tt \in Trivia THEN prevSig ELSE r.tt)
                        /\ gEnd' = r.hi
                        /\ pok' = (pok /\ J!Allowed(UnitOf(r.tt), pstk, Deep))
                        /\ pstk' = (IF pok' THEN J!Effect(UnitOf(r.tt), pstk) ELSE pstk)
                        /\ \E g \in {Ghost(r.tt)} : gs' = g.gs /\ gbal' = g.gbal /\ base' = g.base
+                       /\ clean' = (clean /\ (redo \/ ~LexErr(r)))
 
 Next == Step
 Spec == Init /\ [][Next]_ivars
@@ -495,7 +576,6 @@ Progress == [][~halted' /\ Reported => gEnd' > gEnd]_ivars
 Min(a, b) == IF a < b THEN a ELSE b
 Ahead == [i \in 1..Min(4, N - pos) |-> Ch(input[pos + i])]          \* no token or opener of JsTokens.tla is longer than 4
 PunctFirst == {q[1] : q \in J!Q}
-PunctNames == {J!Join(q) : q \in J!PunctSeqs}
 \* JsTokens!FirstLen, with its candidates Q indexed by their first character once (it is evaluated at every step)
 QBy == [ch \in PunctFirst |-> {q \in J!Q : q[1] = ch}]
 FirstLenBy(s) == J!MaxOf({Len(q) : q \in {r \in QBy[s[1]] : J!IsPrefix(r, s) /\ J!Viable(r, s)}})
@@ -597,6 +677,94 @@ ReLangStep ==
                                 /\ (o.hi < N => ~IsFlagChar(input[o.hi + 1]))
         ELSE o.tt = "Error" /\ \A m \in (gEnd + 1)..N : ~IsReLiteral(Text(gEnd, m))
 ReLang == [][ReLangStep]_ivars
+
+(* ---- (e) det is sound: a token flagged det is the one the declarative definition yields ---- *)
+(* Clause 12 as languages on classes (the number and regular-expression languages are NumLang's and ReLang's);    *)
+(* identifiers without \u escapes and strings with the plain escapes only - Det flags nothing else.               *)
+IdStartC(c) == c \in IdStartA \cup {"uletter"}                        \* 12.7 IdentifierStartChar
+IdPartC(c)  == c \in IdContA \cup {"uletter", "ucont"}                \* 12.7 IdentifierPartChar
+IsIdName(t) == t # <<>> /\ IdStartC(t[1]) /\ \A i \in 2..Len(t) : IdPartC(t[i])
+RECURSIVE StrChars(_, _, _), TmplChars(_, _)
+\* 12.9.4 DoubleStringCharacters / SingleStringCharacters: b from i on, q the quote
+StrChars(b, i, q) ==
+    IF i > Len(b) THEN TRUE
+    ELSE IF b[i] = q \/ b[i] \in {"nl", "cr"} THEN FALSE                                          \* U+2028 / U+2029 are allowed
+    ELSE IF b[i] # "bslash" THEN StrChars(b, i + 1, q)
+    ELSE /\ i + 1 <= Len(b)
+         /\ IF b[i + 1] = "cr" THEN StrChars(b, IF i + 2 <= Len(b) /\ b[i + 2] = "nl" THEN i + 3 ELSE i + 2, q)     \* LineContinuation
+            ELSE IF IsLT(b[i + 1]) THEN StrChars(b, i + 2, q)
+            ELSE b[i + 1] \notin Digits \cup {"letter_x", "letter_u"} /\ StrChars(b, i + 2, q)       \* CharacterEscapeSequence
+IsStr(t) == Len(t) >= 2 /\ t[1] \in {"dquote", "squote"} /\ t[Len(t)] = t[1] /\ StrChars(SubSeq(t, 2, Len(t) - 1), 1, t[1])
+\* 12.9.6 TemplateCharacters: no '`', no '${'; a '\' takes the next character with it
+TmplChars(b, i) ==
+    IF i > Len(b) THEN TRUE
+    ELSE IF b[i] = "backtick" THEN FALSE
+    ELSE IF b[i] = "dollar" /\ i + 1 <= Len(b) /\ b[i + 1] = "lbrace" THEN FALSE
+    ELSE IF b[i] = "bslash" THEN i + 1 <= Len(b) /\ TmplChars(b, i + 2)
+    ELSE TmplChars(b, i + 1)
+TmplKind(t) ==
+    IF Len(t) >= 2 /\ t[Len(t)] = "backtick" /\ TmplChars(SubSeq(t, 2, Len(t) - 1), 1)
+    THEN (IF t[1] = "backtick" THEN "Template" ELSE "TemplateEnd")
+    ELSE IF Len(t) >= 3 /\ t[Len(t) - 1] = "dollar" /\ t[Len(t)] = "lbrace" /\ TmplChars(SubSeq(t, 2, Len(t) - 2), 1)
+    THEN (IF t[1] = "backtick" THEN "TemplateStart" ELSE "TemplateMiddle")
+    ELSE "none"
+\* 12.4
+IsLineCmt(t)  == Len(t) >= 2 /\ t[1] = "slash" /\ t[2] = "slash" /\ \A i \in 3..Len(t) : ~IsLT(t[i])
+IsBlockCmt(t) == /\ Len(t) >= 4 /\ t[1] = "slash" /\ t[2] = "star" /\ t[Len(t) - 1] = "star" /\ t[Len(t)] = "slash"
+                 /\ \A i \in 3..(Len(t) - 2) : ~(t[i] = "star" /\ t[i + 1] = "slash")
+NumKind(t) == IF IsInteger(t) THEN "Integer" ELSE IF IsDecimal(t) THEN "Decimal"
+              ELSE IF IsPrefixed(t, "letter_x", HexDigits) THEN "Hexadecimal" ELSE IF IsPrefixed(t, "letter_o", OctDigits) THEN "Octal"
+              ELSE IF IsPrefixed(t, "letter_b", BinDigits) THEN "Binary" ELSE "none"
+\* the kind of token the text t is ("none": it is not one); cont: the goal symbol is InputElementTemplateTail. Punctuators: see Presc
+DeclKind(t, cont) ==
+    LET c == t[1] IN
+    IF c \in {"ws", "uws"} THEN (IF Len(t) = 1 THEN "Whitespace" ELSE "none")                      \* 12.2, one code point
+    ELSE IF IsLT(c) THEN (IF t \in {<<"nl">>, <<"cr">>, <<"cr", "nl">>, <<"uls">>} THEN "LineTerminator" ELSE "none")   \* 12.3
+    ELSE IF c \in Digits \/ c = "dot" THEN NumKind(t)
+    ELSE IF c = "slash" THEN (IF IsLineCmt(t) THEN "Comment"
+                              ELSE IF IsBlockCmt(t) THEN (IF \E i \in DOMAIN t : IsLT(t[i]) THEN "CommentLineTerminator" ELSE "Comment")
+                              ELSE "none")
+    ELSE IF c \in {"dquote", "squote"} THEN (IF IsStr(t) THEN "String" ELSE "none")
+    ELSE IF c = "backtick" \/ (c = "rbrace" /\ cont) THEN TmplKind(t)
+    ELSE IF c = "hash" THEN (IF IsIdName(Tail(t)) THEN "PrivateIdentifier" ELSE "none")
+    ELSE IF IsIdName(t) THEN (IF Len(t) = 1 /\ c \in KwAtoms THEN KwName[c] ELSE "Identifier")
+    ELSE "none"
+None == [tt |-> "none", hi |-> -1]
+\* the longest text at pos that is a token, unless a follow restriction makes it none
+LangAt(cont) ==
+    LET ms == {m \in (pos + 1)..N : DeclKind(Text(pos, m), cont) # "none"} IN
+    IF ms = {} THEN None
+    ELSE LET m  == J!MaxOf(ms)
+             k  == DeclKind(Text(pos, m), cont)
+             nx == B(m)
+         IN IF k \in Numeric /\ nx \in IdStartA \cup Digits \cup {"uletter", "bslash"} THEN None      \* 12.9.3: not before IdentifierStart / DecimalDigit
+            ELSE IF IdLike(k) /\ nx = "bslash" THEN None                                            \* an escape may continue it
+            ELSE IF k = "Whitespace" /\ nx \in {"ws", "uws"} THEN None                               \* R5: runs are open
+            ELSE IF k = "LineTerminator" /\ IsLT(nx) THEN None
+            ELSE [tt |-> k, hi |-> m]
+\* what the property-level definition prescribes at pos in the bracket context pstk (None: nothing)
+Presc ==
+    LET cont == pok /\ J!Allowed(<<"tmpl.tail">>, pstk, Deep) IN
+    IF B(pos) = "rbrace" THEN (IF cont THEN LangAt(TRUE)
+                               ELSE IF pok /\ J!Allowed(<<"p.}">>, pstk, Deep) THEN [tt |-> "}", hi |-> pos + 1] ELSE None)
+    ELSE IF Ahead[1] \in PunctFirst THEN
+         LET L == FirstLenBy(Ahead)
+             q == SubSeq(Ahead, 1, L)
+         IN IF q \in J!PunctSeqs THEN [tt |-> J!Join(q), hi |-> pos + L]
+            ELSE IF q \in {<<"<", "!", "-", "-">>, <<"-", "-", ">">>} THEN None           \* Annex B
+            ELSE LangAt(FALSE)                                                         \* '//', '/*', '.d'
+    ELSE LangAt(FALSE)
+DetSoundStep ==
+    (Reported /\ o.det) =>
+        IF redo THEN /\ o.tt = "RegExp" /\ Lo = gEnd /\ IsReLiteral(Text(Lo, o.hi))
+                     /\ (o.hi < N => ~IsFlagChar(input[o.hi + 1]))
+        ELSE \E p \in {Presc} : p # None /\ Lo = pos /\ o.tt = p.tt /\ o.hi = p.hi
+DetSound == [][DetSoundStep]_ivars
+\* ... and the flag is not more timid than its territory: where the definition prescribes a token (and nothing before made the
+\* rest open) the report is flagged, hence - by DetSound - is that token (checked in the thorough configurations *_t.cfg, whose
+\* inputs include those of the quick ones)
+DetCompleteStep == (Reported /\ ~redo /\ clean /\ pos < N) => (Presc # None => o.det)
+DetComplete == [][DetCompleteStep]_ivars
 
 (* ---- (d) level / templateLevels ---- *)
 TIdx == SelectSeq([i \in 1..Len(gs) |-> i], LAMBDA i : gs[i] = "T")
